@@ -285,4 +285,9 @@ Proof. intros; apply set_exp_fields. Qed.
 Lemma log2_fuel_gt : forall i, Z.log2 i < Z.of_nat (log2_fuel i).
 Proof. intros i. unfold log2_fuel. pose proof (Z.log2_nonneg i). lia. Qed.
 
+Lemma sget_init : forall i, sget init i = None.
+Proof. intros i; destruct i; try reflexivity. unfold sget, init; cbn [slots]. apply PM.gempty. Qed.
+Lemma tget_init : forall t, tget init t = None.
+Proof. intros t; unfold tget, init; cbn [tm]. apply PM.gempty. Qed.
+
 Global Opaque sget sset tget set_idx set_exp get_node remove_level cap.
